@@ -8,27 +8,39 @@
 use std::borrow::Cow;
 use std::sync::Arc;
 
-use tau_engine::{Document, Optimisations, Rule, Value};
+use tau_engine::{AsValue, Document, Optimisations, Rule, Value};
 
-const RULES: [&str; 3] = [
-    // matrix + aho-corasick + nested
-    "detection:\n  A:\n  - a: foo*\n    b: '*bar'\n  - a: ibaz\n    b: qux\n  - n:\n      c: 1\n  B:\n    d:\n    - '*x*'\n    - 'y*'\n    - z\n  condition: A or all(B)\ntrue_positives: []\ntrue_negatives: []\n",
-    // regex + regex set + negation
-    "detection:\n  A:\n    a:\n    - '?fo+'\n    - '?ba[rz]'\n    b: 'i?^QUX$'\n  B:\n    not(c): '>3'\n  condition: A and not B\ntrue_positives: []\ntrue_negatives: []\n",
-    // casts and of()
-    "detection:\n  A:\n  - a: foo\n  - b: bar\n  - d: z\n  condition: of(A, 2) or int(c) >= 7\ntrue_positives: []\ntrue_negatives: []\n",
+const RULE_SETS: [[&str; 3]; 2] = [
+    [
+        // matrix + aho-corasick + nested
+        "detection:\n  A:\n  - a: foo*\n    b: '*bar'\n  - a: ibaz\n    b: qux\n  - n:\n      c: 1\n  B:\n    d:\n    - '*x*'\n    - 'y*'\n    - z\n  condition: A or all(B)\ntrue_positives: []\ntrue_negatives: []\n",
+        // regex + regex set + negation
+        "detection:\n  A:\n    a:\n    - '?fo+'\n    - '?ba[rz]'\n    b: 'i?^QUX$'\n  B:\n    not(c): '>3'\n  condition: A and not B\ntrue_positives: []\ntrue_negatives: []\n",
+        // casts and of()
+        "detection:\n  A:\n  - a: foo\n  - b: bar\n  - d: z\n  condition: of(A, 2) or int(c) >= 7\ntrue_positives: []\ntrue_negatives: []\n",
+    ],
+    [
+        // arrays of objects under a nested block, arrays of scalars, all()
+        "detection:\n  A:\n    procs:\n      name: 'i*evil*'\n      pid: '>10'\n  B:\n    all(tags):\n    - '*x'\n    - 'y*'\n  condition: A or B\ntrue_positives: []\ntrue_negatives: []\n",
+        // the same pattern text under both case flags on one field, guarded (the two must stay apart
+        // in whatever the engine remembers), dotted paths and an index
+        "detection:\n  A:\n    e: strict\n    a: '?fo+$'\n  B:\n    e: relaxed\n    a: 'i?fo+$'\n  C:\n    n.c: 1\n    tags[1]: yx\n  condition: A or B or C\ntrue_positives: []\ntrue_negatives: []\n",
+        // many needles on one field (one automaton), counted, plus string / float casts
+        "detection:\n  A:\n    of(d, 2):\n    - 'i*ax*'\n    - '*xb'\n    - 'a*'\n    - '*q*'\n    - 'iAXB'\n    - '*zz*'\n    - 'y*'\n    - '*z'\n  B:\n    str(c): '9'\n  C:\n    flt(f): '>=1.5'\n  condition: A or (B and C)\ntrue_positives: []\ntrue_negatives: []\n",
+    ],
 ];
 
-struct Doc(Vec<(&'static str, V)>);
 enum V {
     S(&'static str),
     I(i64),
-    O(Vec<(&'static str, V)>),
+    F(f64),
+    A(Vec<V>),
+    O(Map),
 }
-struct Obj<'a>(&'a Vec<(&'static str, V)>);
-impl tau_engine::Object for Obj<'_> {
+struct Map(Vec<(&'static str, V)>);
+impl tau_engine::Object for Map {
     fn get(&self, key: &str) -> Option<Value<'_>> {
-        self.0.iter().find(|(k, _)| *k == key).map(|(_, v)| val(v))
+        self.0.iter().find(|(k, _)| *k == key).map(|(_, v)| v.as_value())
     }
     fn keys(&self) -> Vec<Cow<'_, str>> {
         self.0.iter().map(|(k, _)| Cow::Borrowed(*k)).collect()
@@ -37,39 +49,52 @@ impl tau_engine::Object for Obj<'_> {
         self.0.len()
     }
 }
-fn val(v: &V) -> Value<'_> {
-    match v {
-        V::S(s) => Value::String(Cow::Borrowed(s)),
-        V::I(i) => Value::Int(*i),
-        V::O(_) => Value::Null, // nested objects are served through find() below
+impl AsValue for V {
+    fn as_value(&self) -> Value<'_> {
+        match self {
+            V::S(s) => Value::String(Cow::Borrowed(s)),
+            V::I(i) => Value::Int(*i),
+            V::F(f) => Value::Float(*f),
+            V::A(a) => Value::Array(a),
+            V::O(m) => Value::Object(m),
+        }
     }
 }
+struct Doc(Map);
 impl Document for Doc {
     fn find(&self, key: &str) -> Option<Value<'_>> {
+        // a preemption point at every look-up, then the engine's own dotted-path walk
         std::thread::yield_now();
-        let mut cur = &self.0;
-        let mut it = key.split('.').peekable();
-        while let Some(seg) = it.next() {
-            let v = cur.iter().find(|(k, _)| *k == seg).map(|(_, v)| v)?;
-            match (v, it.peek()) {
-                (V::O(o), Some(_)) => cur = o,
-                (V::O(_), None) => return None,
-                (v, None) => return Some(val(v)),
-                _ => return None,
-            }
-        }
-        None
+        tau_engine::Object::find(&self.0, key)
     }
 }
+fn doc(v: Vec<(&'static str, V)>) -> Doc {
+    Doc(Map(v))
+}
 
-fn docs() -> Vec<Doc> {
-    vec![
-        Doc(vec![("a", V::S("foobar")), ("b", V::S("xbar")), ("d", V::S("axb"))]),
-        Doc(vec![("a", V::S("BAZ")), ("b", V::S("qux")), ("c", V::I(9))]),
-        Doc(vec![("a", V::S("foo")), ("b", V::S("QuX")), ("c", V::I(2)), ("d", V::S("z"))]),
-        Doc(vec![("d", V::S("yxz")), ("n", V::O(vec![("c", V::I(1))]))]),
-        Doc(vec![]),
-    ]
+fn docs(set: usize) -> Vec<Doc> {
+    if set == 0 {
+        vec![
+            doc(vec![("a", V::S("foobar")), ("b", V::S("xbar")), ("d", V::S("axb"))]),
+            doc(vec![("a", V::S("BAZ")), ("b", V::S("qux")), ("c", V::I(9))]),
+            doc(vec![("a", V::S("foo")), ("b", V::S("QuX")), ("c", V::I(5)), ("d", V::S("z"))]),
+            doc(vec![("d", V::S("yxz")), ("n", V::O(Map(vec![("c", V::I(1))])))]),
+            doc(vec![]),
+        ]
+    } else {
+        vec![
+            doc(vec![
+                ("procs", V::A(vec![V::O(Map(vec![("name", V::S("good")), ("pid", V::I(50))])), V::O(Map(vec![("name", V::S("an EVIL one")), ("pid", V::I(11))]))])),
+                ("tags", V::A(vec![V::S("yx"), V::S("yyx")])),
+                ("e", V::S("strict")),
+                ("a", V::S("FOO")),
+            ]),
+            doc(vec![("e", V::S("relaxed")), ("a", V::S("FOO")), ("d", V::S("axb")), ("c", V::I(9)), ("f", V::F(1.5))]),
+            doc(vec![("e", V::S("strict")), ("a", V::S("foo")), ("tags", V::A(vec![V::S("x"), V::S("yx")])), ("d", V::S("AXB"))]),
+            doc(vec![("e", V::S("relaxed")), ("a", V::S("bar")), ("n", V::O(Map(vec![("c", V::I(1))]))), ("tags", V::A(vec![V::S("q")])), ("d", V::S("yzz")), ("c", V::S("9")), ("f", V::F(1.25))]),
+            doc(vec![("procs", V::O(Map(vec![("name", V::S("evil")), ("pid", V::I(3))]))), ("tags", V::S("yx")), ("d", V::S("q"))]),
+        ]
+    }
 }
 
 fn show(rule: &Rule) -> String {
@@ -83,9 +108,10 @@ fn show(rule: &Rule) -> String {
 }
 
 fn main() {
-    let docs = Arc::new(docs());
+    let set: usize = std::env::args().nth(1).and_then(|s| s.parse().ok()).unwrap_or(0).min(RULE_SETS.len() - 1);
+    let docs = Arc::new(docs(set));
     let mut failures = 0;
-    for (ri, text) in RULES.iter().enumerate() {
+    for (ri, text) in RULE_SETS[set].iter().enumerate() {
         let rule = Rule::from_str(text).expect("rule loads");
         let opt = rule.clone().optimise(Optimisations::default());
         // optimise prints the same every time (each call gets freshly seeded std hash maps)
@@ -96,6 +122,7 @@ fn main() {
         }
         for (label, r) in [("unoptimised", rule), ("optimised", opt)] {
             let base: Vec<bool> = docs.iter().map(|d| r.matches(d)).collect();
+            println!("  baseline set {} rule {} {}: {:?}", set, ri, label, base);
             let shared = Arc::new(r);
             let mut handles = vec![];
             for t in 0..3usize {
@@ -117,14 +144,14 @@ fn main() {
             for (t, h) in handles.into_iter().enumerate() {
                 for (i, v) in h.join().expect("thread") {
                     if v != base[i] {
-                        println!("MIRI-VIOLATION rule {} {} thread {} doc {}: {} concurrently, {} sequentially", ri, label, t, i, v, base[i]);
+                        println!("MIRI-VIOLATION set {} rule {} {} thread {} doc {}: {} concurrently, {} sequentially", set, ri, label, t, i, v, base[i]);
                         failures += 1;
                     }
                 }
             }
         }
     }
-    println!("taumiri: {} rules x 2 forms x 3 threads x 5 documents x 3 passes x 2 calls, failures={}", RULES.len(), failures);
+    println!("taumiri: set {} {} rules x 2 forms x 3 threads x 5 documents x 3 passes x 2 calls, failures={}", set, RULE_SETS[set].len(), failures);
     if failures > 0 {
         std::process::exit(1);
     }
